@@ -411,6 +411,19 @@ func (vc *VC) cover(st *State, label, site string, props []string) {
 	vc.obls = append(vc.obls, &Obligation{Func: vc.key, Label: label, Kind: "cover", Site: site, Props: props, Path: pathString(st.path), Script: sc, Expect: "cover"})
 }
 
+// pathCover: at the end of a path, ask whether its accumulated assumptions are satisfiable at all. An `unsat` answer means
+// everything "proved" on that path was proved vacuously. Dead paths exist legitimately (branches the precondition rules
+// out), so this is reported in the evidence (infeasible_paths) for review rather than counted as a failure; it is the
+// audit that would have exposed the heap-well-formedness defect (DESIGN 11.5b) at once.
+func (vc *VC) pathCover(st *State, site string) {
+	if !vc.pathCovers {
+		return
+	}
+	assumptions := append(vc.typeFacts(), st.assume...)
+	sc := vc.d.script(assumptions, "", fmt.Sprintf("path cover %s path=%s site=%s", shortFuncKey(vc.key), pathString(st.path), site))
+	vc.obls = append(vc.obls, &Obligation{Func: vc.key, Label: "path-reachable", Kind: "cover", Site: site, Props: vc.props(), Path: pathString(st.path), Script: sc, Expect: "pathcover"})
+}
+
 func pathString(p []int) string {
 	var b strings.Builder
 	for i, x := range p {
